@@ -22,6 +22,11 @@ def print_known(prop, counters):
             print("KNOWN-FINDING: property=%s %s [%s; observed %d time(s) in this run]" % (k.get("property"), k["what"], k["id"], seen))
 
 
+def _tagnote(tag, prop):
+    """Every oracle is armed in every history; one that belongs to another property's statement is named in the detail line."""
+    return "" if not tag or tag == prop else " [oracle of %s]" % tag
+
+
 def replay_committed(prop, exe, extra=()):
     """Committed replays are regression inputs: each must pass on a tree where the property holds."""
     viol = []
@@ -73,8 +78,8 @@ def generic_run(prop, spec, tier, seed):
             nrep, rviol = replay_committed(prop, exe, extra) if part.get("replays", True) else (0, [])
             nrep_total += nrep
             for path, oc in rviol:
-                print("VIOLATION property=%s replay=%s" % (oc[1] or prop, path))
-                print("  committed replay fails: %s" % oc[2][:300])
+                print("VIOLATION property=%s replay=%s" % (prop, path))
+                print("  committed replay fails%s: %s" % (_tagnote(oc[1], prop), oc[2][:300]))
                 violations.append(path)
         reports, failures, infos = runner.run_workers(
             exe, kind, seed + part.get("seed_offset", 0), count, budget, extra=extra, nworkers=part.get("workers"),
@@ -104,8 +109,8 @@ def generic_run(prop, spec, tier, seed):
                 continue
             seen_paths.add(path)
             confirmed += 1
-            print("VIOLATION property=%s replay=%s" % (tag, path))
-            print("  %s: %s" % (target[0], target[2][:400]))
+            print("VIOLATION property=%s replay=%s" % (prop, path))
+            print("  %s%s: %s" % (target[0], _tagnote(tag, prop), target[2][:400]))
             violations.append(path)
         prefix = (pname + ".") if len(parts) > 1 else ""
         for k, v in counters.items():
@@ -161,8 +166,8 @@ def replay_one(prop, spec, path):
     if oc[0] == "pass":
         print("PASS %s" % path)
         return 0
-    print("VIOLATION property=%s replay=%s" % (oc[1] or prop, path))
-    print("  %s: %s" % (oc[0], oc[2][:600]))
+    print("VIOLATION property=%s replay=%s" % (prop, path))
+    print("  %s%s: %s" % (oc[0], _tagnote(oc[1], prop), oc[2][:600]))
     return 1
 
 
